@@ -162,6 +162,19 @@ func (e *env) build(v *Val) interface{} {
 		return v.I
 	case "u8":
 		return uint8(v.I)
+	case "i16":
+		return int16(v.I)
+	case "u16":
+		return uint16(v.I)
+	case "u32":
+		return uint32(v.I)
+	case "c64":
+		return complex64(complex(float32(v.I), float32(v.I)/4))
+	case "barr":
+		// a byte array passed by value (not addressable)
+		var a [5]byte
+		copy(a[:], v.S)
+		return a
 	case "uint":
 		return uint(v.I)
 	case "u64":
